@@ -518,8 +518,17 @@ impl<'a, T> ChordsV2<'a, T> {
 
         // Clear presses from the queue if they were consumed by a chord.
         if self.active_chords.len() > prev_active_chords_len {
+            // Remove one press per key of the chord, not every press of those keys: a key that
+            // was released and pressed again before the chord fired keeps its second press.
+            let mut presses_to_remove = accumulated_presses.clone();
             self.queue.retain(|qd| match qd.event {
-                Event::Press(_, j) => !accumulated_presses.contains(&j),
+                Event::Press(_, j) => match presses_to_remove.iter().position(|k| *k == j) {
+                    Some(pos) => {
+                        presses_to_remove.swap_remove(pos);
+                        false
+                    }
+                    None => true,
+                },
                 _ => true,
             });
         }
